@@ -43,6 +43,31 @@ def run(ctx):
         filters += [ast.Compare(ast.Eq(), I("s1"), S(s)), ast.Compare(ast.In(), I("s1"), ast.List([S(s), S("b")])),
                     ast.Compare(ast.Ge(), call("indexof", I("s1"), S(s)), ast.Integer("0")) if hasattr(ast, "Ge") else ast.Compare(ast.GtE(), call("indexof", I("s1"), S(s)), ast.Integer("0")),
                     ast.Compare(ast.Eq(), call("concat", I("s1"), S(s)), I("s2")), ast.Compare(ast.Eq(), call("length", S(s)), call("length", I("s1")))]
+    # arithmetic on two INTEGER LITERALS, every sign combination, inexact quotients (truncation toward zero vs floor; the sign of a remainder), shifted so that
+    # the result falls on a value the rows hold
+    for a, b in [(-7, 2), (7, -2), (-9, 2), (9, -2), (-1, 2), (1, -2), (7, 2), (-7, -2), (-7, 3), (7, -3)]:
+        A, B = ast.Integer(str(a)), ast.Integer(str(b))
+        for op in (ast.Mod, ast.Add, ast.Sub, ast.Mult) + (() if False else (ast.Div,)):
+            for off in ("0", "1", "2", "3", "4", "5"):
+                filters.append(ast.Compare(ast.Eq(), I("i1"), ast.BinOp(ast.Add(), ast.BinOp(op(), A, B), ast.Integer(off))))
+            filters.append(ast.Compare(ast.Gt(), I("i1"), ast.BinOp(op(), A, B)))
+            filters.append(ast.UnaryOp(ast.Not(), ast.Compare(ast.Lt(), I("i2"), ast.BinOp(op(), A, B))))
+    # chains of eq / in terms on ONE field joined by `or`, with a null test at every position, plain and negated (a rewrite into IN (...) loses the null test)
+    def orchain(terms):
+        e = terms[0]
+        for t in terms[1:]:
+            e = ast.BoolOp(ast.Or(), e, t)
+        return e
+    for col, lits in (("i1", [ast.Integer("7"), ast.Integer("-1"), ast.Integer("2")]), ("s1", [S("ab"), S(""), S("A%")])):
+        eqs = [ast.Compare(ast.Eq(), I(col), l) for l in lits]
+        nul = ast.Compare(ast.Eq(), I(col), ast.Null())
+        for pos in range(4):
+            terms = eqs[:pos] + [nul] + eqs[pos:]
+            filters += [orchain(terms), orchain(terms[:2]), orchain(terms[:3]), ast.UnaryOp(ast.Not(), orchain(terms)), ast.UnaryOp(ast.Not(), orchain(terms[:2])),
+                        ast.BoolOp(ast.Or(), terms[0], ast.BoolOp(ast.Or(), terms[1], ast.BoolOp(ast.Or(), terms[2], terms[3])))]
+        filters += [orchain(eqs), orchain([nul, ast.Compare(ast.In(), I(col), ast.List(lits[:2]))]), orchain([ast.Compare(ast.In(), I(col), ast.List(lits[:2])), nul, eqs[2]]),
+                    ast.BoolOp(ast.And(), ast.Compare(ast.NotEq(), I(col), ast.Null()), ast.Compare(ast.NotEq(), I(col), lits[0])),
+                    orchain([ast.Compare(ast.Eq(), ast.Null(), I(col)), eqs[0]])]
     uniq = sc.dedup(filters)
     nodes = [n for w, n in uniq]
     texts = texts_of(nodes)
